@@ -197,3 +197,43 @@ def _param_ann(f: FunctionInfo, name: str):
         if x.arg == name:
             return x.annotation
     return None
+
+
+def inline_reaching(fn_node: ast.AST, at: ast.AST, expr: ast.AST, depth: int = 4) -> ast.AST:
+    """Substitute a name by the single assignment that reaches `at` in straight-line code: the nearest preceding simple
+    assignment among the earlier statements of the function body, with no other store to the name in between (flow-sensitive
+    complement of inline_locals, for names that are re-bound later, e.g. as a loop variable)."""
+    body = getattr(fn_node, "body", [])
+    idx = None
+    for i, st in enumerate(body):
+        if any(x is at for x in ast.walk(st)):
+            idx = i
+            break
+    if idx is None:
+        return expr
+
+    def stores(st, name):
+        return any(isinstance(x, ast.Name) and x.id == name and isinstance(x.ctx, (ast.Store, ast.Del)) for x in ast.walk(st))
+
+    def reaching(name, before):
+        for j in range(before - 1, -1, -1):
+            st = body[j]
+            if isinstance(st, ast.Assign) and len(st.targets) == 1 and isinstance(st.targets[0], ast.Name) and st.targets[0].id == name:
+                return j, st.value
+            if stores(st, name):
+                return None
+        return None
+
+    def sub(e, before, d):
+        if d > depth:
+            return e
+
+        class Sub(ast.NodeTransformer):
+            def visit_Name(self, n):
+                if isinstance(n.ctx, ast.Load):
+                    r = reaching(n.id, before)
+                    if r is not None:
+                        return sub(copy.deepcopy(r[1]), r[0], d + 1)
+                return n
+        return Sub().visit(e)
+    return ast.fix_missing_locations(sub(copy.deepcopy(expr), idx, 0))
